@@ -149,6 +149,10 @@ where
 
 fn main() {
     let args = Args::parse();
+    // diagnostics: AG_LOG=1 RUST_LOG=<filter> prints the nodes' own log to stderr
+    if std::env::var_os("AG_LOG").is_some() {
+        alpenglow::logging::enable_logforth();
+    }
     let mut rng = Rng::new(args.seed);
     // attack duration; before it a calibration phase (nodes must finalize without any attack), after it a
     // recovery phase (every node must finalize again) whose time limit scales with the calibration time, so that a
@@ -393,9 +397,32 @@ fn main() {
             samples.push(fins_now(&rt));
         }
     }
+    // the parent-ready frontier of a pool: the highest window start above its finalized slot for which it announces a
+    // ready parent. It advances only when certificates (notarization or skip) keep being formed from the correct
+    // nodes' votes, i.e. when the node's message loop, pool and the Votors are alive - also while every window is
+    // being skipped and nothing is finalized
+    let frontier_now = |rt: &tokio::runtime::Runtime, from: &[u64]| -> Vec<u64> { rt.block_on(async {
+        let mut v = Vec::new();
+        for (k, (_, p)) in pools.iter().enumerate() {
+            let g = p.read().await;
+            let f = g.finalized_slot().inner();
+            let mut w = from.get(k).copied().unwrap_or(0).max(f / 4 * 4);
+            let mut best = w;
+            for _ in 0..256 {
+                w += 4;
+                if !g.parents_ready(Slot::new(w)).is_empty() { best = w; }
+            }
+            v.push(best);
+        }
+        v
+    }) };
     // ---- phase 2: recovery (no attack): every node finalizes at least two further slots
+    // (patience: under the flood the cluster can lose votes and certificates and stop finalizing at a window of the
+    //  Byzantine leader; it picks up again through standstill recovery, which re-broadcasts every 10 s - usually within one
+    //  round after the flood ends, on a loaded machine after several; 20 s was too short: false alarms in the thorough tier)
     let at_attack_end = fins_now(&rt);
-    let limit = Duration::from_secs(20).max(calib * 8);
+    let frontier_start = frontier_now(&rt, &[]);
+    let limit = Duration::from_secs(std::env::var("AG_RECOVERY_SECS").ok().and_then(|v| v.parse().ok()).unwrap_or(90)).max(calib * 8);
     let rec_start = Instant::now();
     let mut last = at_attack_end.clone();
     while rec_start.elapsed() < limit {
@@ -404,6 +431,7 @@ fn main() {
         if last.iter().zip(at_attack_end.iter()).all(|(a, b)| *a >= *b + 2) { break; }
     }
     let recovery = rec_start.elapsed();
+    let frontier_end = frontier_now(&rt, &frontier_start);
     samples.push(last.clone());
     // panics are collected *before* shutdown: cancelling the tasks one by one makes the survivors' channel sends
     // fail ("votor should not drop the event receiver"), which is a shutdown artefact, not the effect of an input
@@ -419,7 +447,14 @@ fn main() {
         let f_end = last.get(k).copied().unwrap_or(0);
         let f_att = at_attack_end.get(k).copied().unwrap_or(0);
         // progress is only demanded if the nodes made progress on this machine before the attack started
-        rec.oracle(!calib_ok || f_end >= f_att + 2, "node-wedged-after-attack", || format!("node {i}: finalized slot {f_att} when the attack ended and {f_end} after {:.1} s without attack (before the attack the nodes needed {:.1} s to finalize slot 2; samples per second during the attack: {:?})", recovery.as_secs_f64(), calib.as_secs_f64(), samples.iter().map(|s| s[k]).collect::<Vec<_>>()));
+        // "keeps voting, producing and finalizing": finalization resumes - or, when the machine / the network is too slow
+        // for blocks to beat the timeouts (every window is skipped; C02's timeliness premise, not C10's subject), at
+        // least the certificates keep coming: the parent-ready frontier advances by two or more windows
+        let fr0 = frontier_start.get(k).copied().unwrap_or(0);
+        let fr1 = frontier_end.get(k).copied().unwrap_or(0);
+        let alive = f_end >= f_att + 2 || fr1 >= fr0 + 8;
+        if f_end < f_att + 2 && alive { rec.count("recovery:skipping-windows-without-finalizing"); }
+        rec.oracle(!calib_ok || alive, "node-wedged-after-attack", || format!("node {i}: finalized slot {f_att} when the attack ended and {f_end} after {:.1} s without attack, parent-ready frontier {fr0} -> {fr1} (before the attack the nodes needed {:.1} s to finalize slot 2; samples per second during the attack: {:?})", recovery.as_secs_f64(), calib.as_secs_f64(), samples.iter().map(|s| s[k]).collect::<Vec<_>>()));
         let during = samples.first().map(|s| s[k]).unwrap_or(0);
         rec.count(&format!("progress-during-attack:{}", f_att > during));
     }
